@@ -586,8 +586,54 @@ class AckFamily(Family):
         return True
 
 
+class InteropFamily(Family):
+    name = "interop"
+    timeout_s = 900
+    anchored = ["rtmp/src/sessions/client/mod.rs", "rtmp/src/sessions/server/mod.rs"]
+    rule = ("one case = one scenario run by !interop: a REAL ClientSession against a REAL ServerSession exchanging their output bytes "
+            "under seeded random fragmentation (1 byte … whole buffer) and interleaving of the two directions and of the application "
+            "actions; both applications follow the documented contract (queue a call's packets, then react to its events; server accepts "
+            "every request; client proceeds on each accepted event; stop after the last item / after playback was accepted and "
+            "everything arrived); script: connect(app with/without trailing '/'), publish or play(key), items = metadata/audio/video with "
+            "sizes {0, 1, cs-1, cs, cs+1, 64 KiB+1, random} and timestamps incl. ≥ 2^24, 2^32-1 and falling; configurations: chunk sizes "
+            "{1,2,127,128,4096,65535,2^31-1}² × windows {1,100,2500000,2^32-1}²; oracle: every item raised exactly once, in order, "
+            "byte-identical with its timestamp, under the app name (minus one trailing '/') and stream key, connect completed on both "
+            "sides, exactly one matching finished event at the server, no error, no stall; non-trivial = ≥ 1 item; distinct = distinct op text")
+
+    def gen(self, rng, tier, pid, stats):
+        sizes_cs = [1, 2, 127, 128, 4096, 65535, (1 << 31) - 1]
+        wins = [1, 100, 2500000, M32 - 1]
+        n = 3000 if tier == "quick" else 40000
+        # a deterministic sweep over all chunk-size pairs first
+        combos = [(a, b) for a in sizes_cs for b in sizes_cs]
+        for i in range(n):
+            if i < len(combos):
+                cs_c, cs_s = combos[i]
+            else:
+                cs_c, cs_s = rng.choice(sizes_cs), rng.choice(sizes_cs)
+            win_c, win_s = rng.choice(wins), rng.choice(wins)
+            kind = "pub" if i % 2 == 0 else "play"
+            cs = cs_c if kind == "pub" else cs_s
+            items = []
+            tiny = cs <= 2
+            for _ in range(rng.choice([0, 1, 2, 3, 5, 8, 12])):
+                k = rng.choice("avm")
+                size = rng.choice([0, 1, max(cs - 1, 0), cs, cs + 1, 65537, rng.range(0, 3000)])
+                size = min(size, 3000 if tiny else 70000)
+                ts = rng.choice([0, 40, 0xFFFFFF, 0x1000000, M32 - 1, rng.below(M32), 5])
+                items.append(f"{k}:{0 if k == 'm' else size}:{0 if k == 'm' else ts}")
+            bump(stats, f"scenario_{kind}")
+            bump(stats, f"items_{len(items)}")
+            app = rng.choice([b"live", b"live/", b"a/b", "é".encode()])
+            key = rng.choice([b"key", b"k" * 40, "ключ".encode()])
+            yield [f"!interop {kind} {cs_c} {cs_s} {win_c} {win_s} {rng.below(1 << 40)} {hexb(app)} {hexb(key)} {','.join(items) or '-'}"]
+
+    def nontrivial(self, ops):
+        return not ops[0].endswith(" -")
+
+
 FAMILIES = {f.name: f for f in [TimeFamily(), AmfFamily(), AmfAdvFamily(), ChunkFamily(), ForeignFamily(), MsgFamily(), HsFamily(),
-                                 ServerFamily(), ClientFamily(), AckFamily()]}
+                                 ServerFamily(), ClientFamily(), AckFamily(), InteropFamily()]}
 
 
 # ------------------------------------------------------------------------------- known findings
